@@ -153,41 +153,47 @@ def mk_sweep(iset, pins, arch=7, sec=True, virt=False, mode=None, claims=('host'
 # shard generators
 # ---------------------------------------------------------------------------
 
-LIST_PATTERNS = [0x00, 0xA5]
+# register lists of LDM/STM-class instructions: the loop over the 16 list bits forks once per bit, so the list is
+# windowed: 4 list bits symbolic (r0-r3, or r12-r15 = IP/SP/LR/PC incl. base-in-list cases), the others zero
+LIST_WINDOWS = [('r0-3', [(15, 4, 0)]), ('r12-15', [(11, 0, 0)])]
 
 
-def arm_shards(full=True, stride=1):
-    """(name, pins) for the ARM space: bits 27:20 pinned; block-transfer shards additionally window the
-    register list"""
+def arm_shards():
+    """(name, pins) for the ARM space: bits 27:20 pinned; block-transfer shards additionally window the list"""
     out = []
-    for op in range(0, 256, stride):
+    for op in range(256):
         pins = [(27, 20, op)]
         if (op >> 5) == 0b100:  # LDM/STM: register_list = bits 15:0
-            for pat in LIST_PATTERNS:
-                out.append(('A/%02x/lo-sym-hi%02x' % (op, pat), pins + [(15, 8, pat)]))
-                out.append(('A/%02x/hi-sym-lo%02x' % (op, pat), pins + [(7, 0, pat)]))
+            for wn, wp in LIST_WINDOWS:
+                out.append(('A/%02x/list-%s' % (op, wn), pins + wp))
         else:
             out.append(('A/%02x' % op, pins))
     return out
 
 
-def t16_shards(stride=1):
-    return [('T16/%02x' % op, [(15, 8, op)]) for op in range(0, 0xE8, stride) if (op >> 3) not in (0b11101, 0b11110, 0b11111)]
+def t16_shards():
+    return [('T16/%02x' % op, [(15, 8, op)]) for op in range(0, 0xE8) if (op >> 3) not in (0b11101, 0b11110, 0b11111)]
 
 
-def t32_shards(stride=1):
+def t32_shards():
     """hw1 = 111 op1:2 op2:7 ....: pin bits 28:20 of the 32-bit word (hw1[12:4])"""
     out = []
-    for v in range(0, 512, stride):
+    for v in range(128, 512):
         op1 = v >> 7
-        if op1 == 0:
-            continue
         pins = [(31, 29, 0b111), (28, 20, v)]
         op2 = v & 0x7F
         if op1 == 1 and (op2 & 0b1100100) == 0:  # load/store multiple: register list in hw2
-            for pat in LIST_PATTERNS:
-                out.append(('T32/%03x/lo-sym-hi%02x' % (v, pat), pins + [(15, 8, pat)]))
-                out.append(('T32/%03x/hi-sym-lo%02x' % (v, pat), pins + [(7, 0, pat)]))
+            for wn, wp in LIST_WINDOWS:
+                out.append(('T32/%03x/list-%s' % (v, wn), pins + wp))
         else:
             out.append(('T32/%03x' % v, pins))
     return out
+
+
+def quick_sample(shards, n, seed=0):
+    """deterministic spread of n shards (seed rotates the offset)"""
+    if n >= len(shards):
+        return list(shards)
+    stepf = len(shards) / float(n)
+    off = (seed * 7) % max(1, int(stepf))
+    return [shards[min(len(shards) - 1, int(i * stepf) + off)] for i in range(n)]
